@@ -121,4 +121,24 @@ theorem finished_is_final (q : Q) (hfin : q.progress = .finished) (ev : Ev) : (s
   | success p closer => simp [stepQ, onSuccess, hf]
   | failure p => simp [stepQ, onFailure, hf]
 
+/-! ### non-vacuity: concrete histories -/
+
+private def exCfg : Config := ⟨2, 3, 10⟩
+private def exKnown : List (Nat × Bool) := [(5, true), (3, true), (9, false), (12, true)]
+private def exEvs : List Ev :=
+  [.next 0, .next 0, .next 0, .success 3 [(1, true), (5, true), (0, false)], .next 1, .failure 5, .next 2,
+   .success 1 [], .next 20, .success 0 [(2, true)], .next 21, .next 40, .success 9 [], .next 41]
+
+/-- A full result: the three closest answering peers, including the target itself (distance 0),
+one of them (0) answered after its peer timeout had passed. -/
+example : intoResult (runQ (withConfig .closest exCfg 0 exKnown) exEvs) = [0, 1, 3] := by decide
+/-- The predicate variant drops peer 0 (reported with a non-matching record) and, still short of
+`num_results`, goes on to contact every remaining candidate before it finishes. -/
+example : intoResult (runQ (withConfig .predicate exCfg 0 exKnown) exEvs) = [1, 3] := by decide
+example : (runQ (withConfig .predicate exCfg 0 exKnown) exEvs).progress = .finished := by decide
+/-- A finished query with a short (empty) result: the hypotheses of `complete_when_short` hold. -/
+example : (next (runQ (withConfig .closest ⟨1, 3, 10⟩ 0 [(5, true)]) [.next 0, .failure 5]) 1).2 = .finished ∧
+    (intoResult (next (runQ (withConfig .closest ⟨1, 3, 10⟩ 0 [(5, true)]) [.next 0, .failure 5]) 1).1).length < 3 := by
+  decide
+
 end Discv5.Query
